@@ -8,7 +8,7 @@ HOOKS = {
 }
 ENGINES = [
   {'name': 'ir2c+cbmc', 'path': 'tools/ir2c.py, tools/vlib.py',
-   'serves_properties': [], 'kind_free_text': 'real draco C++ -> clang++-14 LLVM IR -> own IR-to-C translator -> CBMC 6.11 bounded model checking (SAT/SMT verdict), counterexamples replayed natively'},
+   'serves_properties': ['C01','C02','C03','C04','C05','C06','C07','C08','C10','C11','C12','C16','C17','C18','C19'], 'kind_free_text': 'real draco C++ -> clang++-14 LLVM IR -> own IR-to-C translator -> CBMC 6.11 bounded model checking (SAT/SMT verdict), counterexamples replayed natively'},
 ]
 NOTES = ('Every check is ./vcheck <id> --tier quick|thorough (cwd /verif). Exit 0 = all obligations discharged by the solver within the stated bounds; '
          '1 = counterexample found and replayed against the real code (VIOLATION line); 2 = broken/inconclusive (never reported as success). '
@@ -48,6 +48,19 @@ CLAIMED = {
   'text': '2-safety proof on the real AttributeQuantizationTransform + PointAttribute objects: the decoded value of a point is independent of the other point, for every q and all float inputs; explicit parameters are stored verbatim.',
   'design_ref': 'DESIGN.md 3/C12', 'technique': _T + '; self-composition, float arithmetic as uninterpreted functions',
   'note': _N + 'Bounds: 2 points x 2 components. That the encoders call SetParameters when the option is set is outside the claim.'},
+ 'C05': {
+  'category': 'translation_validation', 'engine': 'ir2c+cbmc (tv)',
+  'text': 'Translation validation: the C translation of 39 format-defining decoder kernels (constants, varints, transforms, rANS/rABS steps and table parsing, version gates, dequantization, predictors) at the pinned revision is frozen under frozen/; every run regenerates the current translation and CBMC proves equal observable results for ALL inputs of each kernel harness. A behavioural edit yields a distinguishing input that is replayed on the compiled kernels.',
+  'design_ref': 'DESIGN.md 2.4, 3/C05', 'technique': 'translation validation by bounded model checking: current vs frozen kernel, shared symbolic inputs, uninterpreted-function abstraction of mul/div/float ops',
+  'note': _N + 'The frozen side was produced by the same translator. Outside: the order in which whole decoders combine the kernels (Edgebreaker traversal, attribute sequencing).'},
+ 'C06': {
+  'text': 'Self-composition on the real kernels: a decode is unaffected by bytes after the consumed prefix (two buffers equal on the prefix give the same result and consumption); a coder object with an arbitrary history and a buffer with different heap garbage produce byte-identical output.',
+  'design_ref': 'DESIGN.md 3/C06', 'technique': _T + '; self-composition (2-safety)',
+  'note': _N + 'Bounds: 8..12 byte buffers, <= 2 fields. Whole Encoder/Decoder entry points, Options iteration order and address-space dependence of whole runs are outside the claim.'},
+ 'C11': {
+  'text': 'Metadata framing only: name strings (any bytes, incl. NUL) round-trip through EncodeString/DecodeName, and an entry written the way EncodeMetadata writes it (name, varint size, bytes) with ANY value length incl. 0 is accepted and consumed exactly by DecodeEntry. Found and, after the fix, proves absence of the zero-length-value defect.',
+  'design_ref': 'DESIGN.md 3/C11', 'technique': _T,
+  'note': _N + 'Bounds: names <= 6 bytes, values <= 3 bytes. Metadata::AddEntryBinary is cut; the tree walk, nesting and std::map objects are outside reach (no verdict in 10 min), as is attribute metadata.'},
  'C16': {
   'text': 'For every obligation the SAT solver proves the round-trip assertion for ALL inputs inside the stated bound (every int32 (min,max,orig,pred) 4-tuple for the wrap transform; every canonical pair for each q for the octahedral transforms), on code regenerated from /repo each run.',
   'design_ref': 'DESIGN.md 3/C16', 'technique': _T,
@@ -68,6 +81,7 @@ CLAIMED = {
 _WIP = 'check not built yet in this revision (work in progress, see DESIGN.md section 3 for the planned obligations)'
 NOT_APPLICABLE = {p: _WIP for p in ['C%02d' % i for i in range(1, 21)]}
 NOT_APPLICABLE.update({
+ 'C20': 'KeyframeAnimation is a PointCloud subclass encoded by the sequential point-cloud codec; only LinearSequencer ordering is encodable, which is too thin to decide the property (DESIGN.md 4)',
  'C09': 'both sides of the comparison run over CornerTable/MeshAttributeCornerTable built inside encoder/decoder objects; CornerTable::Init alone gives no solver verdict on 2 symbolic triangles in 20 min and no leaf kernel implies the equality (DESIGN.md 5)',
  'C13': 'CornerTable::Init is a fix-point over growing std::vectors; no CBMC verdict on 2 symbolic triangles over 4 ids in 1200 s / 6 GB, far below the property\'s own bound (DESIGN.md 5)',
  'C14': 'dedup runs on std::unordered_map (bucket policy out of line in libstdc++, no IR), cleanup/stripifier on constructed CornerTable/Mesh; nothing encodable carries the property (DESIGN.md 5)',
